@@ -1,6 +1,13 @@
 #!/bin/sh
 # usage: seed_prompt.sh C01 a  -> prompt for an independent "break the property" sub-agent
 P=$1; S=$2; D=/tmp/seed-$P-$S
+ROUNDNOTE=""
+if [ "$S" != "a" ]; then ROUNDNOTE=" Other engineers have already
+tried the most direct edits to the mechanisms named above (dropping or inverting the obvious check,
+swapping the obvious key or argument). Look further afield: code in OTHER files and functions that
+cooperates with those mechanisms (callers, callees, constructors and initialisation, configuration
+defaults, caches, cleanup and error paths, goroutines and locks), API entry points that reach the
+mechanism by a second route, and mistakes that only matter in combination with behaviour elsewhere."; fi
 cat <<TXT
 You are testing the robustness of a Go code base. A private git worktree of the repository
 berty/weshnet (Go module berty.tech/weshnet/v2) has been created for you at $D .
@@ -29,7 +36,7 @@ type-checks, an error that is swallowed, an early return, or two cooperating sit
 fine alone. Prefer changes that need something specific to manifest — a particular interleaving,
 a crash or fault at a particular point, a multi-step sequence of operations, an unusual or malicious
 input — over changes that ordinary use would expose at once. Make the three changes different in
-kind and, if possible, in location. Do not edit or delete tests, build files or generated *.pb.go files.
+kind and, if possible, in location.$ROUNDNOTE Do not edit or delete tests, build files or generated *.pb.go files.
 
 For EACH change N (1..3) create the directory $D/_seed/N/ containing:
   - patch.diff   : the change, as produced by 'git diff' in $D (only that change applied)
